@@ -208,6 +208,8 @@ impl<T: Entry> RowEchelonVecMatrix<T> {
     //@ rw R12 /let mut row = 0;/let mut row: usize = 0;/
     //@ rw R12 /let mut nr_swaps = 0;/let mut nr_swaps: usize = 0;/
     //@ rw R17 /for col in 0\.\.m\.nr_columns\(\)$/for col in it: 0..m.nr_columns()/
+    // loops see the facts about immutable locals established before them (robust against hoisting `m.nr_rows()` into a local)
+    #[verifier::loop_isolation(false)]
     pub fn new(m: &VecMatrix<T>) -> (re: Self)
         requires m.inv()
         // C18 "no shape makes these routines panic": every index / assertion in the body is discharged for ALL shapes, and
